@@ -106,6 +106,11 @@ func methodOf(name string) string {
 }
 
 func (w *World) BuildEffects() *Effects {
+	w.effOnce.Do(func() { w.eff = w.buildEffects() })
+	return w.eff
+}
+
+func (w *World) buildEffects() *Effects {
 	e := &Effects{w: w, byFn: map[*ssa.Function][]*Site{}, edges: map[*ssa.Function][]*ssa.Function{},
 		reach: map[*ssa.Function]map[*ssa.Function]bool{}, impls: map[string][]*ssa.Function{}}
 	inScope := map[*ssa.Function]bool{}
